@@ -109,6 +109,10 @@ class P(Prop):
         (M, "TV.C05.spatial_clamp_exact", "T4c: the clamp T = min(max(T, t_bwd), t_fwd) of the fix commit 20ed89f is a no-op in exact arithmetic (stamps t_bwd <= t_fwd): the weighted mean already lies between the two stamps and equals the linear interpolation, so T3a/T3/T3d/T3e/T4/S2 describe the repaired code"),
         (M, "TV.C05.spatial_time_clamped", "T4': WITHOUT exact arithmetic (any linearly ordered scalar type with four arbitrary operations, e.g. rounding doubles): with stamps that never decrease every time handed to readUnixTime by __resampleSpatial lies between the stamps of the two fixes of its leg, the legs never go backwards, outputs on different legs are in chronological order, an output on a leg travelled in no time carries exactly its stamp, none is earlier than the first fix; only two samples of one leg of positive duration are not ordered by the clamp alone (T4, exact)"),
         (M, "TV.C05.spatial_stamps_monotone", "S2: spatial mode, stamps that never decrease (repeats allowed), not before 1970: the outputs carry the calendar stamps readUnixMs(m) with m = floor(1000 t) the millisecond of the interpolated time; these m never decrease along the output and each stamp is well formed and reads back as m ms: the stamps actually carried never decrease (exact arithmetic)"),
+        (M, "TV.C05.stamp_is_readUnixTime", "S3: for EVERY instant t >= 0 (whole millisecond or not, e.g. an interpolated time) ObsTime.readUnixTime(t) mirrored operation for operation on the fractional seconds (stampG = C03's readUnixG: year loop with its fuel, month loop, truncated divisions, ms = int((t - int(t)) * 1000)) ends and returns the calendar fields of C03's integer reader on the millisecond floor(1000 t): stampG = stampOf, a theorem instead of a definition (exact arithmetic, exact int())"),
+        (M, "TV.C05.spatial_stamps_readUnixTime", "S2': spatial mode, stamps that never decrease, not before 1970: the timestamps the mirrored code attaches (readUnixTime run on each interpolated, generally non-integral time) are exactly stampOf = readUnixMs(floor(1000 t)), and these milliseconds never decrease along the output (exact arithmetic)"),
+        (M, "TV.C05.spatial_first_stamp_carried", "S2'': the first output of __resampleSpatial is getFirstObs().copy() and carries the first fix's own ObsTime (spatialStampsG) instead of readUnixTime of its time; for a well-formed stamp this is the same list of timestamps as re-reading every output (stampG), so S2' describes the stamps the track really holds (exact arithmetic: C03's round trip; in doubles the carried stamp may be 1 ms later -- the harness compares output 0 with the first fix's own stamp)"),
+        (M, "TV.C05.temporal_stamps_readUnixTime", "S1': S1 for instants that are NOT whole milliseconds: the observation returned for each requested t in (tini, tfin] (any order, first fix not before 1970) carries readUnixTime(t) as the mirrored code computes it = the calendar stamp of the millisecond floor(1000 t) the instant falls in (exact arithmetic)"),
         (M, "TV.C05.spatial_legs", "T3b: the accumulated leg lengths are the non-negative 2D distances (square = dx^2+dy^2) for any sqrt meeting math.sqrt's contract"),
         (M, "TV.C05.spatial_distance_along_leg", "T3c: the point at fraction f of a leg is at planimetric distance f|ab| from its start, so with T3 the sample k lies at distance k ds along the original 2D polyline"),
         (M, "TV.C05.frontend", "Track.resample: feature table reset to empty (the dispatcher interpolation.resample alone leaves it as it was); explicit delta = the private routine (spatial + non-numeric step = TypeError); delta=None = the call with step (1+1e-8) D/npts"),
@@ -121,21 +125,22 @@ class P(Prop):
     ]
     partial = []
     open_statements = [
-        "IEEE rounding is outside the theorems (ordered field): float overshoot int(L/ds)*ds > L (repaired by the fix commits 6fb91a5 + 3031a33: bounded scan and abscissa clamped to L, both mirrored by the model and proved to be no-ops in exact arithmetic; their effect in floats is covered by the Float-model correspondence and the oracle), loss of the (1+1e-8) guard on epoch-scale stamps and the truncation int((t - int(t))*1000) of the millisecond field to m-1 for some whole-millisecond instants are only sampled by the transfer check (1 ms tolerance)",
-        "spatial mode: the stamp of an output is readUnixTime of an interpolated, generally non-integral number of milliseconds; the model stamps with floor(1000 t) by definition (stampOf); S2 proves that these stamps never decrease and read back as floor(1000 t) ms in exact arithmetic; in floats the truncation int((t - int(t))*1000) is only sampled (1 ms tolerance); the former finding spatial-equal-stamp-leg-ms-decrease (on a leg travelled in no time wbwd*t + wfwd*t fell one ulp below t and the output stamps read m, m-1, m) is repaired by 20ed89f and T4' proves, for any arithmetic, that times on different legs or on a no-time leg never decrease; the order of two samples of ONE leg of positive duration in floats (monotonicity of the rounded weighted mean) is only sampled by the oracle",
+        "IEEE rounding is outside the theorems (ordered field): float overshoot int(L/ds)*ds > L (repaired by the fix commits 6fb91a5 + 3031a33: bounded scan and abscissa clamped to L, both mirrored by the model and proved to be no-ops in exact arithmetic; their effect in floats is covered by the Float-model correspondence and the oracle), loss of the (1+1e-8) guard on epoch-scale stamps and the truncation int((t - int(t))*1000) of the millisecond field to m-1 for some whole-millisecond instants are not covered by theorems: they are sampled by the transfer check (the Float model runs the same operations, readUnixTime included -- stampG -- and must reproduce the calendar fields exactly; the Rat model and the oracle allow 1 ms)",
+        "spatial mode: the stamp of an output is readUnixTime of an interpolated, generally non-integral number of milliseconds; that this is the calendar stamp of floor(1000 t) (stampOf) is now a THEOREM about C03's operation-for-operation reader (S3 stamp_is_readUnixTime, S2', S1') in exact arithmetic, and S2 proves that these stamps never decrease and read back as floor(1000 t) ms; in floats the truncation int((t - int(t))*1000) is no theorem, but it is inside the model: the Float stream stamps with the same reader at IEEE doubles (stampG) and the seven calendar fields of every output are compared EXACTLY with the real code's (no millisecond of tolerance); the former finding spatial-equal-stamp-leg-ms-decrease (on a leg travelled in no time wbwd*t + wfwd*t fell one ulp below t and the output stamps read m, m-1, m) is repaired by 20ed89f and T4' proves, for any arithmetic, that times on different legs or on a no-time leg never decrease; the order of two samples of ONE leg of positive duration in floats (monotonicity of the rounded weighted mean) is only sampled by the oracle",
     ]
     modelled = ("tracklib/algo/interpolation.py prepareTimeSampling (number / list / Track / other argument), __resampleTemporal, __resampleSpatial (bounded scan, clamped abscissa, interpolated time clamped to the two stamps of its leg -- 20ed89f), "
                 "the ALGO_LINEAR branches of the dispatcher resample() (including that it leaves the feature table untouched), sample(), synchronize() "
                 "(common range with Python's max/min, argsort as a sort of values, the de-duplication loop as written); tracklib/core/track.py Track.resample "
                 "(`delta is None` -> npts/factor with the (1+1e-8) guard, SRID read, dispatcher call, reset of the feature table), Track.__floordiv__, __pow__, "
                 "__mul__ (number); tracklib/core/track_collection.py TrackCollection.resample and __floordiv__ (temporal mode since the fix commit ea8666e); ENUCoords.distance2DTo/distanceTo as sqrt parameters; "
-                "ObsTime.toAbsTime/readUnixTime through the C03 model (stampOf)")
+                "ObsTime.readUnixTime on the float handed to it by the two loops = C03's operation-for-operation reader readUnixG (Model/ObsTimeG.lean) composed as stampG, emitted by both streams "
+                "(Float: compared field for field with the real observation; Rat: equal to stampOf, theorem S3); stampOf = C03's integer reader on floor(1000 t)")
     trusted = ["C05: for the forms that give a number of points instead of a step (npts= / factor= / track ** n / track * k) the oracle does not assume which step the "
                "library derives: it recovers the constant step from the output (position of one observation on the original polyline; the stamps alone on a track that "
                "does not move) and demands the property's full answer -- count included -- for that step (`spec_derived`; theorem npts_exhibits_step); the derived step "
                "itself, (1+1e-8) x (3D length | duration) / npts, is checked by the correspondence with the model only",
                "C05: the Rat instantiation of the model runs on inputs whose leg lengths are exact square roots (else the Float instantiation only); "
-               "the stamp of an output is the C03 model applied to floor(1000 t) (Model/Resample.lean stampOf)",
+               "the stamp of an output is C03's readUnixG on the model's time (stampG; bit-exactness of that reader at Float with CPython is C03's correspondence), proved equal to the C03 integer model applied to floor(1000 t) (stampOf) in exact arithmetic",
                "C05: for synchronize() the oracle holds each track against the property for the request that track actually received, recorded at the door of "
                "Track.resample (which instants synchronize chooses is checked by the correspondence with the model, theorem synchronize_spec)"]
     rule = ("ENU tracks of 1..8 fixes on an integer/dyadic lattice (3-4-5 and axis-parallel legs, repeated positions), strictly increasing "
@@ -1128,11 +1133,19 @@ class P(Prop):
             pts = []
             for tok in ([] if body == "_" else body.split(";")):
                 v = tok.split(",")
+                # v[4:] = <stampOf> (7 fields | neg) then <stampG> (7 fields | nofuel): ObsTime.readUnixTime mirrored on the scalar t
+                rest = v[5:] if v[4] == "neg" else v[11:]
+                if rest == ["nofuel"]:
+                    g = None
+                elif len(rest) == 7:
+                    g = list(map(int, rest))
+                else:
+                    raise ValueError("driver replied the point %r" % tok[:80])
                 if v[4] == "neg":
-                    pts.append([num(v[0]), num(v[1]), num(v[2]), None, num(v[3])])
+                    pts.append([num(v[0]), num(v[1]), num(v[2]), None, num(v[3]), g, None])
                 else:
                     f = list(map(int, v[4:11]))
-                    pts.append([num(v[0]), num(v[1]), num(v[2]), ms_of_fields(f), num(v[3])])
+                    pts.append([num(v[0]), num(v[1]), num(v[2]), ms_of_fields(f), num(v[3]), g, f])
             tracks.append({"pts": pts, "feat": [] if feats == "_" else feats.split(",")})
         if case.get("via") in self.MULTI:
             return {"tracks": tracks}
@@ -1152,6 +1165,7 @@ class P(Prop):
         if isinstance(impl_out, dict) and impl_out.get("orig_changed"):
             return "the operator modified the track it was applied to (the model returns a new track and leaves the operand as it is)"
         for sc, m in model_out.items():
+            self._sc = sc
             msg = self.compare_one(case, impl_out, m)
             if msg:
                 return "[%s model] %s" % ("Rat" if sc == "q" else "Float", msg)
@@ -1168,13 +1182,27 @@ class P(Prop):
             if len(a["tracks"]) != len(m["tracks"]):
                 return "number of tracks: impl=%d model=%d" % (len(a["tracks"]), len(m["tracks"]))
             for k, (x, y) in enumerate(zip(a["tracks"], m["tracks"])):
-                msg = self.compare_track(x, y)
+                msg = self.compare_track(x, y, self.carried_first(case, k))
                 if msg:
                     return "track %d: %s" % (k + 1, msg)
             return None
-        return self.compare_track(a, m)
+        return self.compare_track(a, m, self.carried_first(case, 0))
 
-    def compare_track(self, a, m):
+    def carried_first(self, case, k):
+        """spatial mode: the first output is `track.getFirstObs().copy()` -- it CARRIES the ObsTime object of the first fix, it is
+        not re-read by readUnixTime (in floats readUnixTime(toAbsTime()) of a stamp with ms = 991 may be ...990; found by the exact
+        comparison of the fields). Returns the calendar fields of the first fix of input track k in spatial mode, else None.
+        (In exact arithmetic both are the same stamp: C03 readUnixG_toAbsG, so S2' holds as stated.)"""
+        via = case.get("via")
+        if not (via == "mul" or (case.get("mode") == 1 and via in (None, "resample", "interp", "coll"))):
+            return None
+        e = self.eff(case)
+        inputs = [e["pts"]] + list(e.get("others") or [])
+        if k >= len(inputs) or not inputs[k]:
+            return None
+        return fields_of_ms(inputs[k][0][3])
+
+    def compare_track(self, a, m, first=None):
         if a["feat"] != m["feat"]:
             return "feature table: impl=%s model=%s" % (a["feat"], m["feat"])
         if len(a["pts"]) != len(m["pts"]):
@@ -1185,6 +1213,14 @@ class P(Prop):
                     return "point %d coordinate %d: impl=%r model=%r" % (i, c, p[c], q[c])
             if p[3] is None or q[3] is None or abs(p[3] - q[3]) > 1:
                 return "point %d stamp: impl=%r (%s) model=%r" % (i, p[3], p[4], q[3])
+            # the stamp the mirrored ObsTime.readUnixTime computes on the model's own time (stampG = C03's readUnixG):
+            # Float model: the same doubles, the same operations -> the seven fields of the real observation EXACTLY
+            # (no millisecond of tolerance); Rat model: theorem stamp_is_readUnixTime (S3) -> the fields of stampOf exactly
+            if getattr(self, "_sc", "f") == "f":
+                if (first if (i == 0 and first is not None) else q[5]) != p[4]:
+                    return "point %d stamp fields: impl=%s model readUnixTime(%r)=%s" % (i, p[4], q[4], q[5])
+            elif q[5] != q[6]:
+                return "point %d: model stampG=%s differs from model stampOf=%s at t=%r (theorem S3)" % (i, q[5], q[6], q[4])
         return None
 
     # ------------------------------------------------------------------ oracle
